@@ -87,7 +87,12 @@ func decImpl(line string) string {
 		if panicked {
 			return "panic"
 		}
-		return fmt.Sprintf("ok %d %d %s %s", d.Precision, d.Scale, d.Int().String(), hx([]byte(str)))
+		// formatted and parsed back: an equal decimal (Cmp), whatever history the object's big.Int has
+		cmp := 0
+		if d2, err := asetypes.NewDecimalString(d.Precision, d.Scale, str); err == nil && d.Cmp(*d2) && d2.Cmp(*d) {
+			cmp = 1
+		}
+		return fmt.Sprintf("ok %d %d %s %s cmp=%d", d.Precision, d.Scale, d.Int().String(), hx([]byte(str)), cmp)
 	case f[1] == "new" && len(f) == 4:
 		p, ok1 := decInt(f[2])
 		s, ok2 := decInt(f[3])
@@ -197,9 +202,10 @@ func decOracle(line, out string) string {
 		// a decimal built by the library is one the property speaks about: precision 1..38, scale within it,
 		// no more digits than the precision; its text is the exact expansion
 		g := strings.Fields(out)
-		if len(g) != 5 || g[0] != "ok" {
+		if len(g) != 6 || g[0] != "ok" {
 			return "a money value on the wire becomes a decimal that can be formatted"
 		}
+
 		p, _ := decInt(g[1])
 		s, _ := decInt(g[2])
 		i, _ := decBig(g[3])
@@ -210,6 +216,9 @@ func decOracle(line, out string) string {
 		r, ok := new(big.Rat).SetString(text)
 		if !decTextRe.MatchString(text) || !ok || r.Cmp(new(big.Rat).SetFrac(i, decPow10(s))) != 0 {
 			return "the text is the exact decimal expansion of the unscaled integer divided by ten to the scale"
+		}
+		if g[5] != "cmp=1" {
+			return "formatting a decimal and parsing the text back yields an equal decimal (a decimal as it comes off the wire)"
 		}
 		return ""
 	}
@@ -428,6 +437,15 @@ func decMutate(rng *rand.Rand, t string) string {
 func decGen(tier string, rng *rand.Rand, emit func(Case)) {
 	// money values as they come off the wire (SHORTMONEY 4 bytes, MONEY 8 bytes high word first, MONEYN
 	// either): boundaries of every digit count and random ones
+	// numeric values as they come off the wire (DECN / NUMN: sign byte, magnitude big-endian): zero with one
+	// to four magnitude bytes, small and large magnitudes, both signs
+	for _, t := range []int{0x6A, 0x6C} {
+		for _, mag := range [][]byte{{0}, {0, 0}, {0, 0, 0, 0}, {1}, {0, 1}, {0xff}, {1, 0}, {0x0d, 0xe0, 0xb6, 0xb3, 0xa7, 0x63, 0xff, 0xff}, {0x7f, 0xff, 0xff}} {
+			for _, sign := range []byte{0, 1} {
+				emit(Case{Line: fmt.Sprintf("dec wire %d %s", t, hx(append([]byte{sign}, mag...))), Kind: "wire-numeric"})
+			}
+		}
+	}
 	for _, t := range []int{0x7A, 0x3C, 0x6E} {
 		for _, n := range []int{4, 8} {
 			if (t == 0x7A && n == 8) || (t == 0x3C && n == 4) {
